@@ -66,7 +66,50 @@ def ensure_ctx(opts):
     return _CTX
 
 
+def in_pristine_child(fn, *args):
+    """Run fn(*args) in a forked child of the (pristine) calling process and return its pickled result."""
+    import pickle
+    r, w = os.pipe()
+    pid = os.fork()
+    if pid == 0:
+        try:
+            os.close(r)
+            try:
+                data = pickle.dumps(fn(*args), protocol=pickle.HIGHEST_PROTOCOL)
+            except BaseException:
+                data = pickle.dumps({"fatal": traceback.format_exc()})
+            view = memoryview(data)
+            while view:
+                n = os.write(w, view[:1 << 20])
+                view = view[n:]
+        finally:
+            os._exit(0)
+    os.close(w)
+    chunks = []
+    while True:
+        b = os.read(r, 1 << 20)
+        if not b:
+            break
+        chunks.append(b)
+    os.close(r)
+    _, status = os.waitpid(pid, 0)
+    if not chunks:
+        return {"fatal": "child died without a result (wait status %d)" % status}
+    return pickle.loads(b"".join(chunks))
+
+
 def _run_chunk(args):
+    """Runs in a pool worker.  The worker itself never executes any spectrum function: it forks a
+    child per chunk, so every chunk starts from the same pristine process state (imports only) and a
+    chunk's result does not depend on which chunks the worker served before -- even if the code under
+    test keeps process-global state.  A crashing child costs one chunk, not the pool."""
+    out = in_pristine_child(_run_chunk_inner, args)
+    if "fatal" in out:
+        out["stratum"] = args[1]
+    return out
+
+
+def _run_chunk_inner(args):
     mname, stratum, base_seed, indices, want_samples, full = args
     m = machine_by_name(mname)
     out = {"stratum": stratum, "runs": 0, "skipped": 0, "steps": 0, "stats": {}, "states": set(),
@@ -103,9 +146,10 @@ def _run_chunk(args):
         out["digests"].append((int(d[:16], 16), bool(run.nontrivial)))
         if run.violation is not None:
             v = run.violation
+            pos = indices.index(idx)
             out["violations"].append({"stratum": stratum, "index": idx, "seed": run.seed, "clause": v.clause,
                                       "step": v.step, "detail": v.detail, "cfg": run.cfg, "ops": run.ops,
-                                      "digest": d})
+                                      "digest": d, "chunk_prefix": list(indices[:pos + 1])})
         elif len(out["samples"]) < want_samples:
             out["samples"].append({"stratum": stratum, "index": idx, "seed": run.seed,
                                    "history": m.describe(run.cfg, run.ops), "digest": d[:16]})
@@ -174,6 +218,9 @@ class Batch(object):
 
     def _merge(self, out):
         r = self.res
+        if "fatal" in out:
+            r["harness"].append({"stratum": out.get("stratum"), "trace": out["fatal"]})
+            return
         for k in ("runs", "skipped", "steps", "init_errors", "checked_reads"):
             r[k] += out[k]
         for k, v in out["stats"].items():
@@ -199,17 +246,29 @@ class Batch(object):
 # determinism self-test
 # ---------------------------------------------------------------------------
 
-def digests_for(mname, base_seed, plan, opts):
-    """In-process, sequential: {"stratum/index": digest}.  plan: [(stratum, [indices])]."""
+def _digests_one(mname, base_seed, stratum, idxs):
     m = machine_by_name(mname)
-    ctx = ensure_ctx(opts)
+    out = {}
+    for idx in idxs:
+        signal.alarm(RUN_TIMEOUT_S)
+        run = m.run_index(stratum, idx, base_seed, _CTX)
+        signal.alarm(0)
+        if run is None:
+            continue
+        out["%s/%d" % (stratum, idx)] = run.digest() if run.init_error is None else "init:" + run.init_error
+    return out
+
+
+def digests_for(mname, base_seed, plan, opts):
+    """Sequential: {"stratum/index": digest}.  plan: [(stratum, [indices])].  Like the pool, each
+    stratum's chunk runs in a child forked from this (pristine) process."""
+    ensure_ctx(opts)
     out = {}
     for stratum, idxs in plan:
-        for idx in idxs:
-            run = m.run_index(stratum, idx, base_seed, ctx)
-            if run is None:
-                continue
-            out["%s/%d" % (stratum, idx)] = run.digest() if run.init_error is None else "init:" + run.init_error
+        res = in_pristine_child(_digests_one, mname, base_seed, stratum, idxs)
+        if "fatal" in res:
+            raise RuntimeError(res["fatal"])
+        out.update(res)
     return out
 
 
@@ -234,3 +293,19 @@ def determinism_selftest(mname, base_seed, plan, pool_digests, opts, hashseed="1
     missing = sorted(k for k in keys if k not in pool_digests)
     return {"ok": not diff and not diff_pool, "compared": len(keys), "mismatch_between_interpreters": diff[:10],
             "mismatch_with_pool": diff_pool[:10], "not_in_pool": len(missing), "hashseeds": ["0", hashseed]}
+
+
+def replay_run_sequence(mname, base_seed, stratum, indices):
+    """Run the given indices of one stratum one after the other in THIS process (call it in a pristine
+    child) and return the violation of the last one as (clause, step, detail, digest) or None.  Used
+    when a failure depends on process-global state left behind by earlier runs of the same chunk."""
+    m = machine_by_name(mname)
+    run = None
+    for idx in indices:
+        signal.alarm(RUN_TIMEOUT_S)
+        run = m.run_index(stratum, idx, base_seed, _CTX)
+        signal.alarm(0)
+    if run is None or run.violation is None:
+        return None
+    v = run.violation
+    return (v.clause, v.step, v.detail, run.digest())
